@@ -409,9 +409,13 @@ func runScenarios(tw emitter, st *stats) {
 		"outbound": {{"enterOut", 0}, {"P", 3}, {"K", 1}, {"sync", 0}, {"leaveOut", 0}, {"sync", 0}, {"P", 1}, {"sync", 0}},
 		"mixed-api": {{"enter", 0}, {"P", 2}, {"enterOut", 0}, {"P", 1}, {"leaveOut", 0}, {"sync", 0},
 			{"enterOut", 0}, {"P", 2}, {"leave", 0}, {"sync", 0}},
-		// 1024 held, the 1025th closes the connection and later writes fail
-		"overflow":        {{"K", 1}, {"enter", 0}, {"P", 1024}, {"sync", 0}, {"P", 1}, {"K", 1}, {"P", 1}},
-		"full-then-leave": {{"enter", 0}, {"P", 1024}, {"leave", 0}, {"sync", 0}, {"enter", 0}, {"P", 3}, {"leave", 0}, {"sync", 0}},
+		// config-valid packets still go out at once while 1023 / exactly 1024 packets are held (nothing
+		// has overflowed); the 1025th held one closes the connection and later writes fail
+		"overflow": {{"K", 1}, {"enter", 0}, {"P", 1023}, {"K", 1}, {"sync", 0}, {"P", 1}, {"K", 1}, {"sync", 0},
+			{"P", 1}, {"K", 1}, {"P", 1}},
+		// a full queue is still released completely, config-valid packets in between are not held up
+		"full-then-leave": {{"enter", 0}, {"P", 1024}, {"K", 2}, {"sync", 0}, {"leave", 0}, {"sync", 0},
+			{"enter", 0}, {"P", 3}, {"leave", 0}, {"sync", 0}},
 	}
 	var names []string
 	for k := range scen {
